@@ -134,10 +134,12 @@ def h_free(title: str, maxlen: int, lang: str, defaultns: int, alphabet: str):
 
 
 def h_struct(idx: int, upper_first: bool, upper_all: bool, lead: str, colon: bool, sp1: str, mid: str, rest: str,
-             lang: str, defaultns: int, restlen: int, lo: int, hi: int, sep: str = SEP_ALPHABET):
+             lang: str, defaultns: int, restlen: int, lo: int, hi: int, sep: str = SEP_ALPHABET, lite: bool = False):
     """lead + ':'? + NAMESPACE (re-cased) + sp1 + ':' + mid + rest  ->  canonical triple of the site."""
     names = ns_names(lang)
     assume(lo <= idx < hi and idx < len(names))
+    if lite:  # every name of the site in three casings, nothing else varies
+        assume(not colon and len(lead) == 0 and len(sp1) == 0 and len(mid) == 0 and rest == "a")
     assume(len(lead) <= 1 and len(sp1) <= 1 and len(mid) <= 1 and len(rest) <= restlen)
     assume(in_alphabet(lead, sep) and in_alphabet(sp1, " _" if "_" in sep else " ") and in_alphabet(mid, sep))
     assume(in_alphabet(rest, REST_ALPHABET if restlen > 1 else "aAß1"))
@@ -282,6 +284,14 @@ def build(tier: str) -> CheckSpec:
                               {"idx": int, "upper_first": bool, "upper_all": bool, "lead": str, "colon": bool, "sp1": str, "mid": str, "rest": str},
                               {"lang": lang, "defaultns": 0, "restlen": restlen, "lo": lo, "hi": lo + chunk, "sep": sep}, timeout=tmo, per_path_timeout=60,
                               group=f"struct-{lang}"))
+    for lang in all_sites:
+        if lang in langs:
+            continue
+        # the other bundled sites: every namespace name x three casings (cheap; their full treatment is in the thorough tier)
+        cubes.append(Cube(f"names[{lang}]", h_struct,
+                          {"idx": int, "upper_first": bool, "upper_all": bool, "lead": str, "colon": bool, "sp1": str, "mid": str, "rest": str},
+                          {"lang": lang, "defaultns": 0, "restlen": 1, "lo": 0, "hi": 10 ** 6, "sep": sep, "lite": True}, timeout=tmo, per_path_timeout=60,
+                          group=f"names-{lang}"))
     cubes.append(Cube("twin: namespace resolution reachable", twin_ns, {"title": str}, {"lang": "en"}, timeout=120, per_path_timeout=60, role="twin"))
     return CheckSpec(
         property_id="C12",
@@ -291,7 +301,8 @@ def build(tier: str) -> CheckSpec:
                    nshandling.NsHandler.get_fqname],
         bounds={"sites": langs, "all_bundled_sites": all_sites, "free_title_max_len": free_len, "free_alphabet": alphabet,
                 "structured": "lead(<=1) ':'? NAMESPACE(lower | Capitalised | UPPER; every local/canonical/alias name of the site) sep(<=1) ':' mid(<=1) rest(<=%d)" % restlen,
-                "separator_alphabet": sep, "separator runs": "two runs of 1..%d characters over space/underscore inside the remainder and inside a two-word namespace name" % (3 if tier == "quick" else 4), "rest_alphabet": REST_ALPHABET, "default_namespaces": defaults},
+                "separator_alphabet": sep, "separator runs": "two runs of 1..%d characters over space/underscore inside the remainder and inside a two-word namespace name" % (3 if tier == "quick" else 4), "rest_alphabet": REST_ALPHABET, "default_namespaces": defaults,
+                "other_sites": "every local/canonical/alias namespace name of every other bundled site in three casings followed by ':a' (cubes names[<site>])"},
         stubs=["none (siteinfo JSON files are read as configuration data)"],
         assumptions=["a page-title spelling has at most one leading colon, a remainder that does not start with a colon, and at least one letter/digit",
                      "idempotence is judged by re-normalizing the full name with default namespace 0 (a main-namespace full name carries no prefix)",
